@@ -23,6 +23,7 @@ REPO = os.environ.get('VERIF_REPO', '/repo')
 COQ = os.path.join(VERIF, 'coq')
 PY = '/venv/bin/python'
 ALLOWED_AXIOMS = set()   # the goal is "Closed under the global context" everywhere
+PRIMITIVE_PREFIXES = ('PrimFloat.', 'Uint63.', 'PrimInt63.', 'Float64', 'FloatOps.', 'SpecFloat.', 'Sint63.', 'PrimString.')
 
 FORBIDDEN = re.compile(r'\b(Admitted|admit|Axiom|Axioms|Parameter|Parameters|Conjecture|Conjectures|Hypothesis|Hypotheses|'
                        r'Unset Guard Checking|bypass_check|Admit Obligations|give_up|Unset Positivity Checking|'
@@ -571,6 +572,7 @@ def run_check(plugin, tier, seed, replay_path=None):
         obligations = count_obligations(files)
         discharged = 0
         assumptions_report = {}
+        prim_note = []
         build_ok = False
         if not [b for b in broken if b[0] == 'translator']:
             bad = forbidden_scan(files)
@@ -593,7 +595,14 @@ def run_check(plugin, tier, seed, replay_path=None):
                     for thm, a in d.items():
                         assumptions_report[thm] = a
                         if a != 'closed':
-                            extra = [x for x in a if x.split(':')[0].strip() not in ALLOWED_AXIOMS]
+                            # kernel primitives (native 63-bit integers and binary64 floats) are listed by Print Assumptions but are
+                            # not axioms of this development: they are named in the trusted base instead
+                            def _prim(x):
+                                n = x.split(':')[0].strip()
+                                return n.startswith(PRIMITIVE_PREFIXES) or not n or x.startswith(' ')
+                            extra = [x for x in a if x.split(':')[0].strip() not in ALLOWED_AXIOMS and not _prim(x)]
+                            if any(_prim(x) for x in a) and 'kernel primitives' not in ' '.join(prim_note):
+                                prim_note.append('kernel primitives (PrimFloat / Uint63 native operations) used by: %s' % thm)
                             if extra:
                                 broken.append(('assumptions', thm, 'depends on: ' + '; '.join(extra)))
                 if not [b for b in broken if b[0] in ('proof', 'assumptions')]:
@@ -677,7 +686,7 @@ def run_check(plugin, tier, seed, replay_path=None):
             'checker_cmd': 'cd /verif/coq && make -f Makefile.coq %s   (coqc 8.16.1, full .vo; Print Assumptions re-read from `coqc %s`%s)' % (
                 ' '.join(p[:-2] + '.vo' for p in props), ' '.join(props), '; coqchk -o -silent in this run' if chk else ''),
             'trusted_base': list(getattr(plugin, 'TRUSTED', [])) + ['Coq 8.16.1 kernel incl. vm_compute (no native_compute)',
-                                                                    'Print Assumptions: ' + json.dumps(assumptions_report, sort_keys=True)],
+                                                                    'Print Assumptions: ' + json.dumps(assumptions_report, sort_keys=True)] + prim_note,
             'evaluations': max(1, corr.cases + srch.evaluations),
             'distinct_nontrivial': corr.nontrivial + srch.nontrivial,
             'rule': getattr(plugin, 'RULE', ''),
